@@ -135,32 +135,34 @@ impl VCancelToken {
 
 /// `executor::task::spawn`.
 ///
-/// The scheduling function is a plain function pointer and the tag a `usize`:
-/// the task is moved into uninitialized memory with a plain assignment, which
-/// is only sound for scheduling functions and tags without drop glue (as is
-/// the case for the executors of this crate).
-pub fn vtask_spawn<F>(
+/// The scheduling function must be a zero-sized function item and the tag is
+/// a `usize`, as for the executors of this crate (the task API requires a
+/// capture-less scheduling function and moves the task into uninitialized
+/// memory with a plain assignment, which is only sound without drop glue).
+pub fn vtask_spawn<F, S>(
     future: F,
-    schedule_fn: fn(VRunnable, usize),
+    schedule_fn: S,
     tag: usize,
 ) -> (VPromise<F::Output>, VRunnable, VCancelToken)
 where
     F: Future + Send + 'static,
     F::Output: Send + 'static,
+    S: Fn(VRunnable, usize) + Copy + Send + Sync + 'static,
 {
     let (p, r, c) = verif_spawn(future, move |r, t: usize| schedule_fn(VRunnable(r), t), tag);
     (VPromise(p), VRunnable(r), VCancelToken(c))
 }
 
 /// `executor::task::spawn_and_forget` (see `vtask_spawn`).
-pub fn vtask_spawn_and_forget<F>(
+pub fn vtask_spawn_and_forget<F, S>(
     future: F,
-    schedule_fn: fn(VRunnable, usize),
+    schedule_fn: S,
     tag: usize,
 ) -> (VRunnable, VCancelToken)
 where
     F: Future + Send + 'static,
     F::Output: Send + 'static,
+    S: Fn(VRunnable, usize) + Copy + Send + Sync + 'static,
 {
     let (r, c) =
         verif_spawn_and_forget(future, move |r, t: usize| schedule_fn(VRunnable(r), t), tag);
